@@ -1,9 +1,8 @@
 /-
   Input normalisation of gama-local as functions (core Lean only):
 
-  * gon2deg.cpp `deg2gon` — value of a sexagesimal string `[+-]D-M-S[.F]`
-    (the full accepted language of the three `istream` extractions is C18's
-    `Gama/Model/Angles.lean`; here the canonical spelling that C07's re-expressions write);
+  * gon2deg.cpp `deg2gon` — NOT modelled here: `process_*` call the shared model
+    `Gama.Angles.deg2gon` (`Gama/Model/Angles.lean`, C18: full accepted language + value);
   * gkfparser.cpp `process_direction/angle/zangle/azimuth` + `finish_obs` — the stored value
     `dm*G2R`, the variance `stdev*stdev`, and for observations whose *value* was sexagesimal the
     rescaling `Cluster::scaleCov(i, 1.0/0.324)` (obsdata.h) of row/column `i`;
@@ -13,6 +12,7 @@
     `change_y_signs_for_inconsistent_system_`.
 -/
 import Gama.Model.LinTypes
+import Gama.Model.Angles
 namespace Gama.Input
 open Gama Gama.Lin
 
@@ -21,11 +21,10 @@ open Gama Gama.Lin
 section
 variable {K : Type} [Scalar K]
 
-/-- `gon = (d/360.0 + m/21600.0 + s/1296000)*400.0; if (gon && negative) gon = -gon;` -/
-def deg2gonValue (negative : Bool) (d m : Nat) (s : K) : K :=
-  let gon : K := ((Scalar.ofNat d : K) / Scalar.ofNat 360 + Scalar.ofNat m / Scalar.ofNat 21600
-                  + s / Scalar.ofNat 1296000) * Scalar.ofNat 400
-  if !(Scalar.beq gon (Scalar.ofNat 0)) && negative then -gon else gon
+/-! `deg2gon` itself (the complete accepted language of the three `istream` extractions and the
+    value formula) is the SHARED model `Gama.Angles.deg2gon` of `Gama/Model/Angles.lean` (C18, tied
+    to gon2deg.cpp by C18's literal stream and by this check's `dms`/`ang` operations); there is no
+    second copy here. -/
 
 def isDigit (c : Char) : Bool := '0' ≤ c && c ≤ '9'
 
@@ -40,28 +39,6 @@ def readDecimal (cs : List Char) : Option ((Nat × Nat) × List Char) :=
   match r1 with
   | '.' :: r => let (v, fd, r') := takeDigits r ip 0; some ((v, fd), r')
   | _ => some ((ip, 0), r1)
-
-/-- canonical sexagesimal spelling `[+-]D+-D+-D+[.D*]`; `none`: not of this form (then the
-    parsers fall back to `toDouble`) -/
-def parseDms (str : String) : Option (Bool × Nat × Nat × (Nat × Nat)) :=
-  match str.toList with
-  | [] => none
-  | b :: rest =>
-    let negative := b = '-'
-    let cs := if b = '-' || b = '+' then rest else b :: rest
-    let (d, kd, r1) := takeDigits cs 0 0
-    if kd = 0 then none else
-    match r1 with
-    | '-' :: r1 =>
-      let (m, km, r2) := takeDigits r1 0 0
-      if km = 0 then none else
-      match r2 with
-      | '-' :: r2 =>
-        match readDecimal r2 with
-        | some (s, []) => some (negative, d, m, s)
-        | _ => none
-      | _ => none
-    | _ => none
 
 /-- `[+-]D+[.D*]` read by `toDouble` (plain decimals only) -/
 def parseDecimal (str : String) : Option (Bool × (Nat × Nat)) :=
@@ -79,8 +56,8 @@ def decToK (p : Nat × Nat) : K := Scalar.ofSci p.1 true p.2
 /-- what `process_direction/angle/zangle/azimuth` compute from the attribute `val`:
     `(dm, degrees)`; `deg2gon` is tried first -/
 def angularValue (val : String) : Option (K × Bool) :=
-  match parseDms val with
-  | some (neg, d, m, s) => some (deg2gonValue neg d m (decToK s), true)
+  match (Angles.deg2gon val : Option K) with
+  | some g => some (g, true)
   | none =>
     match parseDecimal val with
     | some (neg, s) => some (if neg then -(decToK s : K) else decToK s, false)
